@@ -207,7 +207,7 @@ func (p *IGMPv3Query) UnmarshalBinary(data []byte) error {
 	}
 	p.SourceAddresses = nil // a used value must not keep the sources of an earlier query
 	for j := 0; j < int(p.NumberOfSources); j++ {
-		p.SourceAddresses = append(p.SourceAddresses, data[n:n+4])
+		p.SourceAddresses = append(p.SourceAddresses, append(net.IP(nil), data[n:n+4]...)) // a copy: the caller may reuse data
 		n += 4
 	}
 	return nil
@@ -309,7 +309,7 @@ func (p *IGMPv3GroupRecord) UnmarshalBinary(data []byte) error {
 	// a used value must not keep the sources and auxiliary data of an earlier record
 	p.SourceAddresses, p.AuxData = nil, nil
 	for i := uint16(0); i < p.NumberOfSources; i++ {
-		p.SourceAddresses = append(p.SourceAddresses, data[n:n+4])
+		p.SourceAddresses = append(p.SourceAddresses, append(net.IP(nil), data[n:n+4]...)) // a copy: the caller may reuse data
 		n += 4
 	}
 	for i := uint8(0); i < p.AuxDataLen; i++ {
